@@ -7,6 +7,7 @@ package main
 
 import (
 	"crypto/sha256"
+	"encoding/hex"
 	"encoding/json"
 	"flag"
 	"fmt"
@@ -22,9 +23,10 @@ import (
 )
 
 type witnessFile struct {
-	Input   string            `json:"input"`
-	Options map[string]string `json:"options"`
-	Strict  bool              `json:"strict"`
+	Input    string            `json:"input"`
+	InputHex string            `json:"input_hex"` // used when input is empty (sources that are not valid UTF-8)
+	Options  map[string]string `json:"options"`
+	Strict   bool              `json:"strict"`
 }
 
 type caseResult struct {
@@ -128,6 +130,11 @@ func runWitness(ev *evaluator, res *vh.Result, file string, doShrink bool) error
 		return fmt.Errorf("%s: %v", file, err)
 	}
 	input := w.Input
+	if input == "" && w.InputHex != "" {
+		if hb, err := hex.DecodeString(w.InputHex); err == nil {
+			input = string(hb)
+		}
+	}
 	if w.Strict {
 		input = "\"use strict\";" + input
 	}
